@@ -95,6 +95,13 @@ def t_instance(t, px, py, system, n_pert, names):
     x = instantiate(px, env, sl)
     y = instantiate(py, env, sl)
     kinds = []
+    # modifier-shaped inputs (Z|Z) on either side: the rules' modifier shortcut looks at one particular side
+    if y[0] == 'f' and t.chance(36):
+        y = F(y[1], y[2], y[1])
+        kinds.append('y-made-modifier')
+    if x[0] == 'f' and t.chance(20):
+        x = F(x[1], x[2], x[1])
+        kinds.append('x-made-modifier')
     for _ in range(n_pert):
         if t.chance(128):
             x, k = t_perturb(t, x, system)
